@@ -13,8 +13,13 @@ def placeholders(gfa):
     return list(gfa._records["\n"].values())
 
 
-def all_lines(gfa):
-    return list(gfa.lines) + placeholders(gfa)
+def all_lines(gfa, split_headers=True):
+    """gfa.lines plus placeholders. gfa.lines contains the *split* header (temporary
+    one-tag H lines, documented in header.rst); for structural invariants the single
+    connected header line is used instead."""
+    if split_headers:
+        return list(gfa.lines) + placeholders(gfa)
+    return [l for l in gfa.lines if l.record_type != "H"] + [gfa.header] + placeholders(gfa)
 
 
 def is_unknown(line):
@@ -140,7 +145,7 @@ def obs_diff(a, b):
 def invariants(gfa, removed=()):
     """Closure / symmetry / ownership / registry coherence. Returns list of problems."""
     probs = []
-    lines = all_lines(gfa)
+    lines = all_lines(gfa, split_headers=False)
     ids = set(id(l) for l in lines)
     removed_ids = set(id(l) for l in removed)
 
@@ -247,9 +252,18 @@ def check_refs_against_model(gfa, model):
         for key, lst in target._refs.items():
             if key == "links" or not lst:
                 continue
-            c = Counter(line_key(x, version) for x in lst if not x.virtual)
-            if c:
-                got[key] = c
+            for x in lst:
+                if x.virtual:
+                    continue
+                k2 = key
+                if x.record_type == "E" and key.startswith("edges_to_"):
+                    try:
+                        from . import model as _M
+                        if _M.both_whole(G.split_line(line_text(x), version)):
+                            k2 = "containment(both whole)"
+                    except Exception:
+                        pass
+                got.setdefault(k2, Counter())[line_key(x, version)] += 1
         if want != got:
             keys = sorted(set(want) | set(got))
             detail = []
